@@ -29,7 +29,7 @@ PROP_MODULES = {
     "C07": ["contracts.c07"],
     "C20": ["contracts.c20"],
     "C06": ["contracts.c06"],
-    "C01": ["contracts.c01", "contracts.c01_enums"],
+    "C01": ["contracts.c01", "contracts.c01_enums", "contracts.c02"],
     "C15": ["contracts.c15"],
     "C14": ["contracts.c14"],
     "C03": ["contracts.c03"],
